@@ -721,6 +721,9 @@ func (i *Interp) symFloatBinop(op token.Token, k types.BasicKind, x, y value) va
 			i.note("exact-integer float left the +-2^53 range; falling back to FP theory")
 		}
 	}
+	if r, ok := i.cmpFixedWithConst(op, x, y); ok {
+		return r
+	}
 	a, b := i.fpTerm(x), i.fpTerm(y)
 	if i.cfg != nil && i.cfg.FloatUF {
 		switch op {
@@ -777,6 +780,93 @@ func (i *Interp) fixRound(x sym, mode string) sym {
 	default: // RTZ
 		return sym{t: c.Ite(c.ILt(x.t, c.IntConst64(0)), ce(x.t), fl(x.t)), k: x.k, lo: bfl(x.lo), hi: bce(x.hi)}
 	}
+}
+
+// cmpFixedWithConst decides a comparison between an exact-integer / fixed-point float and an
+// arbitrary concrete float (MaxFloat32, 0.3, +Inf, NaN ...) in integer arithmetic:
+// t/2^sc < c  <=>  t < ceil(c*2^sc), and so on. Exact, no FP theory needed.
+func (i *Interp) cmpFixedWithConst(op token.Token, x, y value) (value, bool) {
+	switch op {
+	case token.EQL, token.NEQ, token.LSS, token.LEQ, token.GTR, token.GEQ:
+	default:
+		return nil, false
+	}
+	xs, xok := x.(sym)
+	ys, yok := y.(sym)
+	var s sym
+	var cv float64
+	swapped := false
+	switch {
+	case xok && xs.t.Sort.K == smt.KInt && kindIsFloat(xs.k) && !yok:
+		s = xs
+		switch c := y.(type) {
+		case float64:
+			cv = c
+		case float32:
+			cv = float64(c)
+		default:
+			return nil, false
+		}
+	case yok && ys.t.Sort.K == smt.KInt && kindIsFloat(ys.k) && !xok:
+		s = ys
+		swapped = true
+		switch c := x.(type) {
+		case float64:
+			cv = c
+		case float32:
+			cv = float64(c)
+		default:
+			return nil, false
+		}
+	default:
+		return nil, false
+	}
+	if swapped { // c OP s  ==  s OP' c
+		op = map[token.Token]token.Token{token.EQL: token.EQL, token.NEQ: token.NEQ, token.LSS: token.GTR, token.LEQ: token.GEQ, token.GTR: token.LSS, token.GEQ: token.LEQ}[op]
+	}
+	if math.IsNaN(cv) {
+		return op == token.NEQ, true
+	}
+	if math.IsInf(cv, 1) {
+		return op == token.LSS || op == token.LEQ || op == token.NEQ, true
+	}
+	if math.IsInf(cv, -1) {
+		return op == token.GTR || op == token.GEQ || op == token.NEQ, true
+	}
+	bf := new(big.Float).SetPrec(2200).SetFloat64(cv)
+	bf.SetMantExp(bf, int(s.sc)) // c * 2^sc, exact
+	fl, acc := bf.Int(nil)       // truncation toward zero
+	isInt := acc == big.Exact
+	if !isInt && bf.Sign() < 0 {
+		fl.Sub(fl, big.NewInt(1)) // floor for negatives
+	}
+	ce := new(big.Int).Set(fl)
+	if !isInt {
+		ce.Add(ce, big.NewInt(1))
+	}
+	c := i.ctx
+	t := s.t
+	switch op {
+	case token.EQL:
+		if !isInt {
+			return false, true
+		}
+		return i.mkBool(c.Eq(t, c.IntConst(fl))), true
+	case token.NEQ:
+		if !isInt {
+			return true, true
+		}
+		return i.mkBool(c.Not(c.Eq(t, c.IntConst(fl)))), true
+	case token.LSS:
+		return i.mkBool(c.ILt(t, c.IntConst(ce))), true
+	case token.LEQ:
+		return i.mkBool(c.ILe(t, c.IntConst(fl))), true
+	case token.GTR:
+		return i.mkBool(c.ILt(c.IntConst(fl), t)), true
+	case token.GEQ:
+		return i.mkBool(c.ILe(c.IntConst(ce), t)), true
+	}
+	return nil, false
 }
 
 func mkFloatOfKind(k types.BasicKind, f float64) value {
